@@ -695,8 +695,14 @@ def section_e():
     d = elaborate(parse(M + 'reg [3:0] m [0:3]; always @(posedge a) m[0] <= v; always @(negedge a) m[1] <= v; assign o = m[0]; assign r = a;'
                         + E), 't')
     check('e.multi-writer-memory-warning', [w[0] for w in d.warnings] == ['multi-writer-memory'], repr(d.warnings))
+    # for loops (memory initialisation idiom)
+    d = elaborate(parse('module t(input [2:0] a, output [7:0] q);\nreg [7:0] mem [0:7];\ninteger i;\ninitial begin\n for (i=0; i<8; i=i+1) mem[i] = i*3;\nend\nassign q = mem[a];\nendmodule'), 't')
+    sm = Sim(d)
+    sm.set('a', 5)
+    sm.settle()
+    check('e.for-loop-init', sm.get('q') == (15, 0), repr(sm.get('q')))
     # parse errors carry a line number and do not crash
-    for nm, text in (('for', 'module t(input a);\nreg q; integer i;\nalways @(*) for (i = 0; i < 2; i = i + 1) q = a;\nendmodule'),
+    for nm, text in (('while', 'module t(input a);\nreg q; integer i;\nalways @(*) while (i < 2) q = a;\nendmodule'),
                      ('delay', 'module t(input a);\nreg q;\nalways @(*) #1 q = a;\nendmodule'),
                      ('nonansi', 'module t(a);\ninput a;\nendmodule'),
                      ('function', 'module t(input a);\nfunction f; input x; f = x; endfunction\nendmodule'),
